@@ -550,9 +550,10 @@ class DocumentMapper:
 
         if first_real_span:
             local_start = start_idx - first_real_span.start
-            if local_start > 0:
+            # offset inside the run, not inside the span: a run with line breaks and markers has several spans
+            run_offset = self._offset_in_run(first_real_span) + local_start
+            if run_offset > 0:
                 idx_in_working = 0
-                run_offset = self._offset_in_run(first_real_span) + local_start
                 _, right_run = self._split_run_at_index(working_runs[idx_in_working], run_offset)
                 # every span of the split run that lies in the range now belongs to the right half
                 for i, s in enumerate([s for s in affected_spans if s.run is not None]):
